@@ -15,8 +15,9 @@ def schemaB : Schema := { types := [animalT, queryT []], query := some "Query" }
 def tum : Tum := [("Query", ⟨[("animal", "A")], false⟩), ("Animal", ⟨[("name", "A"), ("age", "B"), ("sound", "A")], true⟩)]
 def ctx : PCtx := ⟨merged, tum, .query, ""⟩
 def fs : List FieldSpec := [("age", tStr, true), ("name", tStr, false), ("sound", tStr, false)]
-def ent : Entity := ⟨"QW5pbWFsOjE=", "Animal", [("id", .scalar (.str "QW5pbWFsOjE=")), ("name", .scalar (.str "rex")), ("age", .scalar (.str "7")), ("sound", .null)]⟩
-def data : Data := ⟨[ent], [("Query", [("animal", .ref "QW5pbWFsOjE=")])]⟩
+/-- the entity id contains `#` (the path separator) on purpose: ids are arbitrary non-empty strings -/
+def ent : Entity := ⟨"QW5pbWFs#1", "Animal", [("id", .scalar (.str "QW5pbWFs#1")), ("name", .scalar (.str "rex")), ("age", .scalar (.str "7")), ("sound", .null)]⟩
+def data : Data := ⟨[ent], [("Query", [("animal", .ref "QW5pbWFs#1")])]⟩
 def svcs : List Svc := [⟨"A", schemaA⟩, ⟨"B", schemaB⟩]
 
 theorem fam : Fam ctx "A" "B" "Animal" "animal" fs where
@@ -50,7 +51,7 @@ theorem reference : Spec.eval ctx.schema data ⟨.query, "", [], [Q "Animal" "an
 /-- the theorem applied: the gateway's answer for this federation is a permutation of `expected` -/
 theorem applied : ∃ d calls, gateway ctx {} ⟨.query, "", [], [Q "Animal" "animal" fs]⟩ none (specDownstream svcs data)
     = .ok ⟨some [("animal", .obj d)], [], calls⟩ ∧ d.Perm expected :=
-  flat_one_hop fam svcs schemaA schemaB data ent expected (by decide) (by decide) (by decide) (by decide) (by decide)
+  flat_one_hop fam svcs schemaA schemaB data ent expected (by decide) (by decide) (by decide) (by decide)
     (by decide) (by rfl) (by rfl) ⟨animalT, by rfl, rfl⟩ (by rfl) (by rfl) rfl reference
 
 end PebblesVerif.Flat.Example
